@@ -10,6 +10,7 @@ import (
 	idp "berty.tech/go-ipfs-log/identityprovider"
 	orbitdb "berty.tech/go-orbit-db"
 	"berty.tech/go-orbit-db/iface"
+	"berty.tech/go-orbit-db/stores/basestore"
 	"berty.tech/go-orbit-db/stores/operation"
 	cid "github.com/ipfs/go-cid"
 )
@@ -258,6 +259,43 @@ func scenC04(k *K) {
 	}
 	k.Settle(90*time.Second, 3000, nil)
 	check("rest")
+	// one more route: what the replicator left unfinished is saved with a snapshot and handed
+	// back to it when the snapshot is loaded by a fresh store object
+	if k.C.Chance(1, 2) {
+		k.W.Stat("route:snapshot-queue")
+		sop := k.Do(c.Peers[1].Node.Idx, "save-snapshot", 100, func() (interface{}, error) {
+			ctx, cancel := OpCtx(2 * time.Minute)
+			defer cancel()
+			return basestore.SaveSnapshot(ctx, R)
+		})
+		if sop.Done && sop.Err == nil {
+			k.Invariant = nil
+			c.Down(1, false)
+			p, err := k.StartPeer(c.Peers[1].Node, c.PeerOpts...)
+			if err != nil {
+				panic(abortPanic{err.Error()})
+			}
+			c.Peers[1] = p
+			oop := k.Do(p.Node.Idx, "reopen", 300, func() (interface{}, error) {
+				ctx, cancel := OpCtx(5 * time.Minute)
+				defer cancel()
+				return p.DB.Open(ctx, c.Addr, c.createOpts(1))
+			})
+			if oop.Done && oop.Err == nil {
+				st := oop.Val.(iface.Store)
+				c.Stores[1] = st
+				R = st
+				prevOrder[1] = nil
+				k.Do(p.Node.Idx, "load-from-snapshot", 300, func() (interface{}, error) {
+					ctx, cancel := OpCtx(5 * time.Minute)
+					defer cancel()
+					return nil, st.LoadFromSnapshot(ctx)
+				})
+				k.Settle(90*time.Second, 3000, nil)
+				check("after-snapshot-reload")
+			}
+		}
+	}
 	k.Notes["attempts"] = done
 	k.Notes["modes"] = len(modes)
 	k.Notes["nontrivial"] = done >= 3 && len(modes) >= 2 && len(LogHashSet(R)) >= 2
